@@ -1,0 +1,18 @@
+//go:build !verif
+
+package collection
+
+// Verification hooks (see verif_on.go).  Without the "verif" build tag they
+// are empty and are inlined away.
+
+const (
+	verifLock = iota
+	verifSend
+	verifRecv
+	verifClose
+	verifSwap
+)
+
+func verifYield(event int, queue any) {}
+func verifNote(event int, queue any)  {}
+func verifSpawn()                     {}
